@@ -859,7 +859,7 @@ def main_env(case, root):
         run_dir, P = root, (lambda f: os.path.join("work", f))
     else:
         raise ValueError(style)
-    coords = P("sys.gro")
+    coords = P(DOTTED_INPUT if case.get("dotted_input") else "sys.gro")
     argv = ["gaddlemaps", coords]
     for s in case["explicit"]:
         argv += ["--mol", P(fname(s, "top_CG")), P(fname(s, "coor_AA")), P(renamed_end_top(s) if case.get("renamed_end") else fname(s, "top_AA"))]
@@ -918,7 +918,11 @@ def main_inputs():
             texts[copy_name(fname(s_, r))] = texts[fname(s_, r)]
         # the same end topology under another [ moleculetype ] name: explicit triples do not require equal names in both resolutions
         texts[renamed_end_top(s_)] = texts[fname(s_, "top_AA")].replace("%s 1" % SPECIES[s_][0], "%s_AA 1" % SPECIES[s_][0], 1)
+    texts[DOTTED_INPUT] = texts["sys.gro"]
     return texts
+
+
+DOTTED_INPUT = "sys.part0002.gro"        # the same system under a name with more than one dot: the default output is mapped_<that name>
 
 
 def renamed_end_top(letter):
@@ -1259,6 +1263,9 @@ def e2e_cases():
     # end topologies whose [ moleculetype ] name differs from the start topology's (allowed for explicit triples)
     cases.append({"explicit": ["A"], "auto": False, "exclude": None, "scale": 0.7, "outfile": None, "style": "rel-sub", "renamed_end": True})
     cases.append({"explicit": ["B", "A"], "auto": False, "exclude": None, "scale": 0.3, "outfile": "abs", "style": "abs", "renamed_end": True})
+    # input file name with more than one dot, no -o: the output is mapped_<input name> beside the input
+    cases.append({"explicit": ["A"], "auto": False, "exclude": None, "scale": 0.6, "outfile": None, "style": "rel-sub", "dotted_input": True})
+    cases.append({"explicit": ["A", "B"], "auto": False, "exclude": None, "scale": 0.6, "outfile": None, "style": "abs", "dotted_input": True})
     return cases
 
 
@@ -1300,7 +1307,8 @@ def run_e2e(case, root, npseed):
         with quiet():
             np.random.seed(npseed)
             random.seed(npseed)
-            man = gaddlemaps.Manager.from_files(os.path.join(work, "sys.gro"), *[os.path.join(work, fname(s, "top_CG")) for s in order])
+            man = gaddlemaps.Manager.from_files(os.path.join(work, DOTTED_INPUT if case.get("dotted_input") else "sys.gro"),
+                                                *[os.path.join(work, fname(s, "top_CG")) for s in order])
             if case.get("renamed_end"):
                 for s in order:         # the end topology carries another molecule name: attach it to its species explicitly
                     man.molecule_correspondence[SPECIES[s][0]].end = Molecule.from_files(os.path.join(work, fname(s, "coor_AA")),
